@@ -205,7 +205,10 @@ def run_scripted(desc):
         r = s.call(opt, tasks.build_task(tdesc), entropy_label="c04")
         digest = s.sim.digest()
         nevents = s.sim.nevents
+        wall_cut = s.sim.wall_limit_hit
     stats = {"digest": digest, "nevents": nevents, "steps": r.steps, "decided_by": why, "want": want}
+    if wall_cut and not r.deadlock:
+        return out, stats           # cut off by the harness's wall budget (machine under load): no verdict
     if r.step_limit or r.deadlock:
         out.append({"cls": ["scripted", "no_termination"],
                     "msg": f"optimize() did not terminate within the step budget (model: stop after cycle {want})"})
